@@ -254,7 +254,8 @@ func isSyncType(t types.Type) bool {
 	}
 	if n, ok := t.(*types.Named); ok && n.Obj().Pkg() != nil {
 		pp := n.Obj().Pkg().Path()
-		return pp == "sync" || pp == "sync/atomic"
+		// synchronisation primitives are meant to be shared; sync.Map is a container — state, not synchronisation
+		return (pp == "sync" && n.Obj().Name() != "Map") || pp == "sync/atomic"
 	}
 	return false
 }
@@ -341,7 +342,16 @@ func (m *mutAnalysis) call(fn *ssa.Function, c ssa.CallInstruction, v ssa.Value,
 		return
 	case m.cloneFn[name]:
 		return
-	case strings.HasPrefix(name, "(*sync.") || strings.HasPrefix(name, "(*sync/atomic."):
+	case (strings.HasPrefix(name, "(*sync.") && !strings.HasPrefix(name, "(*sync.Map).")) || strings.HasPrefix(name, "(*sync/atomic."):
+		return
+	case strings.HasPrefix(name, "(*sync.Map)."):
+		switch strings.TrimPrefix(name, "(*sync.Map).") {
+		case "Load", "Range":
+			return
+		}
+		if pos == 0 {
+			bad(in, "%s of a sync.Map reachable from the receiver: state shared with every logger that holds the same map (a copy of the struct copies the pointer)", strings.TrimPrefix(name, "(*sync.Map)."))
+		}
 		return
 	}
 	if c.Common().IsInvoke() {
